@@ -321,6 +321,12 @@ func runC13(t *testing.T, e *worlds.Env, tier string) (bool, any) {
 					c, err := wrappeds[li].Accept()
 					if err != nil {
 						lk()
+						spurious := !closeCalled
+						ulk()
+						if spurious {
+							e.S.Fail("C13/closure-without-close", sig, "Accept of listener %d failed with %q at %v although Close was never called (a temporary accept error of the wrapped listener must not end the wrapper)", li+1, err, e.S.Elapsed())
+						}
+						lk()
 						now := e.S.Elapsed()
 						acceptErrs++
 						acceptErrSeen, acceptErrAt = acceptErrs == len(wrappeds), now
@@ -381,6 +387,11 @@ func runC13(t *testing.T, e *worlds.Env, tier string) (bool, any) {
 		closedMid = tp.Prob(1, 3, "close-mid")
 		if closedMid {
 			closeAt = time.Duration(tp.Choose(1500, "close-at-ms")) * time.Millisecond
+			if len(conns) > 0 && tp.Prob(1, 3, "close-at-arrival") {
+				// Close at the very instant a connection arrives: whether the connection's handler or the
+				// shutdown runs first is the scheduler's choice
+				closeAt = conns[tp.Choose(len(conns), "close-with")].client.Plan.StartAt
+			}
 			sample.CloseAt = closeAt.String()
 			e.S.Go("closer", func() {
 				time.Sleep(closeAt)
